@@ -1,4 +1,390 @@
-(* C13 — statements are being added; see DESIGN.md section 7. *)
-From XSG.Model Require Import Strings.
-Example C13_placeholder : True. Proof. exact I. Qed.
-Print Assumptions C13_placeholder.
+(* C13 — the structs rendered with the serde-xml-rs preset deserialize their source documents.
+   "For every sequence of namespace-free, data-oriented documents (no prefixed names or xmlns
+    attributes, attribute names of an element distinct from its child names, repeated children
+    adjacent, no element mixing text with children), the source rendered with the serde-xml-rs
+    preset compiles unchanged and serde_xml_rs::from_str into the first rendered struct succeeds
+    for each source document.  The deserialized value holds every attribute value and every text
+    content of the document."
+   "Compiles unchanged" is C04 plus the compile batches of bin/check.  This file is the
+   deserialization half, on the model of serde-xml-rs 0.6 in Model/Deser.v (`de_doc sx_flavour`:
+   attribute keys = local names in the same key space as children, character data under
+   `$value`, repeated children must be adjacent; a model of external code, validated on every run
+   of the checks against the real deserializer).
+   * hypotheses: those of C02 (documents non-empty, `wf_vnode`, common root name,
+     `clash_free_tree e`, `names_plain e`, `data_oriented`) plus, on the inferred tree,
+     `attrs_plain e` (no attribute name contains '@' or '$'; true of every XML name),
+     `namespace_free e` (no ':' in an element or attribute name, no attribute `xmlns`),
+     `attrs_vs_children_names e` (at every node the attribute names are disjoint from the child
+     names), and on the documents `adjacent_doc` (the occurrences of each child key adjacent).
+     Needed: C13_needs_adjacent, C13_needs_attrs_vs_children, C13_needs_attrs_plain.
+   * C13_accepts / C13_attrs_held / C13_string_text_held: accepted (deny = false); every
+     attribute value is among the leaves of the value; so is the character data of every element
+     rendered as `String` (`StringTypedAt`: an element below the root at a text-only tree node).
+   * the `_local` versions: `namespace_free` is not needed on the model when the attribute /
+     child disjointness is stated on local names (`attrs_vs_children`), which is what both the
+     renderer and the model of the deserializer bind (C13_namespace_free_local relates the two).
+   * THE KNOWN FINDING K1 (the last sentence of the property fails for the text of struct-typed
+     elements): the preset binds the text field to `$text` (pinned by the crate's own test
+     `to_serde_struct_with_text_for_serde_xml_rs`), serde-xml-rs delivers character data under
+     `$value`.  C13_text_key_mismatch; C13_field_no_value (a field whose bound name is no
+     attribute key, no child key and not the text key receives no value); C13_text_field_none
+     (so the text field of any struct-typed element comes out as None); C13_root_text_dropped
+     (for the root, in every source document); C13_known_text_dropped (the witness
+     <a b="c">d</a>); C13_known_deny_rejected (with deny_unknown_fields the witness is even
+     rejected).  The contrast: C13_would_hold_with_value / C13_value_accepts_holds — with the
+     text identifier `$value` every value of the document is held, deny or not.
+   Only statements; every proof is `exact <lemma of Proofs/DeserProofs.v>`. *)
+From Coq Require Import String.
+From XSG.Model Require Import Strings Convert Necessity Element Dom Spec Render Deser.
+From XSG.Proofs Require Import ElementProofs ReprDefs RenderProofs AdmitProofs DeserProofs.
+From XSG.Corr Require Import Common Oracles.
+Local Open Scope list_scope.
+
+(* ---------- the additional hypotheses, read ---------- *)
+Theorem C13_adjacent_doc_reading : forall n ef attrs ks,
+  adjacent_doc (VElem n ef attrs ks) <->
+  (forall b, In b (flat_map vkey (eff ef ks)) -> adjacent b (flat_map vkey (eff ef ks)) = true)
+  /\ Forall adjacent_doc (eff ef ks).
+Proof. exact adjacent_doc_elem. Qed.
+
+(* a hereditary boolean predicate on the tree: here and at every child *)
+Theorem C13_eforallb_reading : forall p e, eforallb p e = true ->
+  p e = true /\ Forall (fun c => eforallb p (snd c) = true) (echildren e).
+Proof. exact eforallb_inv. Qed.
+
+Theorem C13_hypotheses_reading :
+  (forall e, attrs_plain e <->
+     eforallb (fun x => forallb (fun a => plain_b (snd a)) (eattrs x)) e = true)
+  /\ (forall e, namespace_free e <->
+        eforallb (fun x => forallb (fun a => nocolon (snd a) && negb (str_eqb (snd a) (s "xmlns")))
+                                   (eattrs x)
+                           && forallb (fun c => nocolon (cname c)) (echildren x)) e = true)
+  /\ (forall e, attrs_vs_children_names e <->
+        eforallb (fun x => forallb (fun a => negb (mem (snd a) (child_names (echildren x))))
+                                   (eattrs x)) e = true)
+  /\ (forall e, attrs_vs_children e <->
+        eforallb (fun x => forallb (fun a => negb (mem (attr_local (snd a))
+                                                       (map (fun c => remove_namespace (cname c))
+                                                            (echildren x))))
+                                   (eattrs x)) e = true).
+Proof. exact sx_hypotheses_reading. Qed.
+
+Theorem C13_namespace_free_local : forall e,
+  namespace_free e -> attrs_vs_children_names e -> attrs_vs_children e.
+Proof. exact namespace_free_local. Qed.
+
+(* ---------- accepted; attribute values and String-typed text held ---------- *)
+Theorem C13_accepts : forall vdocs m e,
+  vdocs <> [] -> Forall (Forall wf_vnode) vdocs ->
+  Forall (fun p => elem_names (map erase_v p) = [m]) vdocs ->
+  run_dom (map (map erase_v) vdocs) = Some e ->
+  clash_free_tree e = true -> names_plain e = true ->
+  Forall (Forall data_oriented) vdocs ->
+  attrs_plain e -> namespace_free e -> attrs_vs_children_names e ->
+  Forall (Forall adjacent_doc) vdocs ->
+  forall vd, In vd vdocs ->
+    exists v, de_doc sx_flavour (render_abs serde_xml_rs e) false vd = Some v.
+Proof. exact sx_accepts_nsfree. Qed.
+
+(* `attr_values`: every attribute value of the document, hereditarily *)
+Theorem C13_attr_values_reading : forall n ef attrs kids0,
+  attr_values (VElem n ef attrs kids0) = map snd attrs ++ flat_map attr_values (eff ef kids0).
+Proof. exact attr_values_elem. Qed.
+
+Theorem C13_attrs_held : forall vdocs m e,
+  vdocs <> [] -> Forall (Forall wf_vnode) vdocs ->
+  Forall (fun p => elem_names (map erase_v p) = [m]) vdocs ->
+  run_dom (map (map erase_v) vdocs) = Some e ->
+  clash_free_tree e = true -> names_plain e = true ->
+  Forall (Forall data_oriented) vdocs ->
+  attrs_plain e -> namespace_free e -> attrs_vs_children_names e ->
+  Forall (Forall adjacent_doc) vdocs ->
+  forall vd nd v, In vd vdocs -> vdoc_root vd = Some nd ->
+    de_doc sx_flavour (render_abs serde_xml_rs e) false vd = Some v ->
+    incl (attr_values nd) (leaves v).
+Proof. exact sx_attrs_held_nsfree. Qed.
+
+(* `StringTypedAt x v d`: d is an element below v whose tree node (below x) is text-only,
+   i.e. the field it is deserialized into is typed String *)
+Theorem C13_StringTypedAt_reading : forall x v d,
+  StringTypedAt x v d <->
+  exists n ef a ks m kef ka kk c,
+    v = VElem n ef a ks /\ In (VElem m kef ka kk) (eff ef ks)
+    /\ get_child (echildren x) m = Some c
+    /\ ((contains_only_text (snd c) = true /\ d = VElem m kef ka kk)
+        \/ StringTypedAt (snd c) (VElem m kef ka kk) d).
+Proof. exact StringTypedAt_reading. Qed.
+
+Theorem C13_string_text_held : forall vdocs m e,
+  vdocs <> [] -> Forall (Forall wf_vnode) vdocs ->
+  Forall (fun p => elem_names (map erase_v p) = [m]) vdocs ->
+  run_dom (map (map erase_v) vdocs) = Some e ->
+  clash_free_tree e = true -> names_plain e = true ->
+  Forall (Forall data_oriented) vdocs ->
+  attrs_plain e -> namespace_free e -> attrs_vs_children_names e ->
+  Forall (Forall adjacent_doc) vdocs ->
+  forall vd nd v dn def da dks,
+    In vd vdocs -> vdoc_root vd = Some nd ->
+    de_doc sx_flavour (render_abs serde_xml_rs e) false vd = Some v ->
+    StringTypedAt e nd (VElem dn def da dks) ->
+    incl (text_runs (eff def dks)) (leaves v).
+Proof. exact sx_string_text_held_nsfree. Qed.
+
+(* ---------- the same without namespace-freeness, disjointness on local names ---------- *)
+Theorem C13_accepts_local : forall vdocs m e,
+  vdocs <> [] -> Forall (Forall wf_vnode) vdocs ->
+  Forall (fun p => elem_names (map erase_v p) = [m]) vdocs ->
+  run_dom (map (map erase_v) vdocs) = Some e ->
+  clash_free_tree e = true -> names_plain e = true ->
+  Forall (Forall data_oriented) vdocs ->
+  attrs_plain e -> attrs_vs_children e -> Forall (Forall adjacent_doc) vdocs ->
+  forall vd, In vd vdocs ->
+    exists v, de_doc sx_flavour (render_abs serde_xml_rs e) false vd = Some v.
+Proof. exact sx_accepts. Qed.
+
+Theorem C13_attrs_held_local : forall vdocs m e,
+  vdocs <> [] -> Forall (Forall wf_vnode) vdocs ->
+  Forall (fun p => elem_names (map erase_v p) = [m]) vdocs ->
+  run_dom (map (map erase_v) vdocs) = Some e ->
+  clash_free_tree e = true -> names_plain e = true ->
+  Forall (Forall data_oriented) vdocs ->
+  attrs_plain e -> attrs_vs_children e -> Forall (Forall adjacent_doc) vdocs ->
+  forall vd nd v, In vd vdocs -> vdoc_root vd = Some nd ->
+    de_doc sx_flavour (render_abs serde_xml_rs e) false vd = Some v ->
+    incl (attr_values nd) (leaves v).
+Proof. exact sx_attrs_held. Qed.
+
+Theorem C13_string_text_held_local : forall vdocs m e,
+  vdocs <> [] -> Forall (Forall wf_vnode) vdocs ->
+  Forall (fun p => elem_names (map erase_v p) = [m]) vdocs ->
+  run_dom (map (map erase_v) vdocs) = Some e ->
+  clash_free_tree e = true -> names_plain e = true ->
+  Forall (Forall data_oriented) vdocs ->
+  attrs_plain e -> attrs_vs_children e -> Forall (Forall adjacent_doc) vdocs ->
+  forall vd nd v dn def da dks,
+    In vd vdocs -> vdoc_root vd = Some nd ->
+    de_doc sx_flavour (render_abs serde_xml_rs e) false vd = Some v ->
+    StringTypedAt e nd (VElem dn def da dks) ->
+    incl (text_runs (eff def dks)) (leaves v).
+Proof. exact sx_string_text_held. Qed.
+
+(* tree level: any document whose root the tree admits; `held false false e nd` (C02_held_reading)
+   = the attribute values and the character data of the String-typed elements *)
+Theorem C13_accepts_tree : forall e vd nd,
+  clash_free_tree e = true -> names_plain e = true -> attrs_plain e -> attrs_vs_children e ->
+  vdoc_root vd = Some nd -> TreeAdmits e (erase_v nd) -> wf_vnode nd -> data_oriented nd ->
+  adjacent_doc nd ->
+  exists v, de_doc sx_flavour (render_abs serde_xml_rs e) false vd = Some v
+            /\ incl (held false false e nd) (leaves v).
+Proof. exact sx_accepts_tree. Qed.
+
+Theorem C13_keys_ok : forall o x,
+  attribute_prefix o = [] -> In 36%N (text_identifier o) ->
+  names_plain x = true -> attrs_plain x -> attrs_vs_children x -> KeysOK sx_flavour o x.
+Proof. exact keys_ok_sx. Qed.
+
+(* ---------- the known finding K1 ---------- *)
+Theorem C13_text_key_mismatch : text_identifier serde_xml_rs <> fl_text_key sx_flavour.
+Proof. exact sx_text_key_mismatch. Qed.
+
+(* `field_val`: the entry of one field in the value of an element — the deserializer, unfolded *)
+Theorem C13_de_as_reading : forall fl ps deny n ef attrs kids0 sn,
+  de_as fl ps deny (VElem n ef attrs kids0) (TyStruct sn) =
+  match find_sd ps sn with
+  | None => None
+  | Some sd =>
+      if unknown_ok fl deny attrs (eff ef kids0) sd then
+        match all_some (map (field_val fl ps deny attrs (eff ef kids0)) (sd_fields sd)) with
+        | Some fs => Some (FStruct fs)
+        | None => None
+        end
+      else None
+  end.
+Proof. exact de_as_struct. Qed.
+
+Theorem C13_field_no_value : forall fl ps deny attrs kids f,
+  (forall a, In a attrs -> attr_key fl (fst a) <> fbound f) ->
+  ~ In (fbound f) (flat_map vkey kids) ->
+  fbound f <> fl_text_key fl ->
+  field_val fl ps deny attrs kids f
+  = match wrap_vals (f_wrap f) [] with Some x => Some (f_ident f, x) | None => None end.
+Proof. exact field_no_value. Qed.
+
+Theorem C13_text_field_none : forall ps deny x attrs kids f,
+  node_keys_ok sx_flavour serde_xml_rs x ->
+  (forall a, In a attrs -> exists t, In (t, fst a) (eattrs x)) ->
+  (forall m, In m (vnames kids) -> exists c, In c (echildren x) /\ cname c = m) ->
+  In f (text_fields serde_xml_rs (id_new x) x) ->
+  field_val sx_flavour ps deny attrs kids f = Some (f_ident f, FNone).
+Proof. exact sx_text_field_none. Qed.
+
+Theorem C13_root_text_dropped : forall vdocs m e,
+  vdocs <> [] -> Forall (Forall wf_vnode) vdocs ->
+  Forall (fun p => elem_names (map erase_v p) = [m]) vdocs ->
+  run_dom (map (map erase_v) vdocs) = Some e ->
+  clash_free_tree e = true -> names_plain e = true ->
+  attrs_plain e -> attrs_vs_children e ->
+  forall vd v f, In vd vdocs ->
+    de_doc sx_flavour (render_abs serde_xml_rs e) false vd = Some v ->
+    In f (text_fields serde_xml_rs (id_new e) e) ->
+    exists fs, v = FStruct fs /\ In (f_ident f, FNone) fs.
+Proof. exact sx_root_text_dropped. Qed.
+
+(* k1_doc = <a b="c">d</a> : the value, the document's values, the value's leaves, is `d` held? *)
+Example C13_known_text_dropped :
+  match run_dom (map (map erase_v) [k1_doc]) with
+  | Some e =>
+      let r := de_doc sx_flavour (render_abs serde_xml_rs e) false k1_doc in
+      (r, flat_map doc_values k1_doc, option_map leaves r,
+       option_map (fun l => mem (s "d") l) (option_map leaves r))
+  | None => (None, [], None, None)
+  end = (Some (FStruct [(s "b", FStr (s "c")); (s "text", FNone)]),
+         [s "c"; s "d"], Some [s "c"], Some false).
+Proof. exact k1_text_dropped. Qed.
+
+Example C13_known_deny_rejected :
+  match run_dom (map (map erase_v) [k1_doc]) with
+  | Some e => de_doc sx_flavour (render_abs serde_xml_rs e) true k1_doc
+  | None => Some FNone
+  end = None.
+Proof. exact k1_deny_rejected. Qed.
+
+(* the contrast: the preset with the text identifier `$value` *)
+Theorem C13_value_options_reading :
+  text_identifier serde_xml_rs_value = s "$value"
+  /\ attribute_prefix serde_xml_rs_value = attribute_prefix serde_xml_rs
+  /\ derive serde_xml_rs_value = derive serde_xml_rs /\ sort serde_xml_rs_value = sort serde_xml_rs.
+Proof. exact serde_xml_rs_value_reading. Qed.
+
+Example C13_would_hold_with_value :
+  match run_dom (map (map erase_v) [k1_doc]) with
+  | Some e => map (fun deny => de_doc sx_flavour (render_abs serde_xml_rs_value e) deny k1_doc) [false; true]
+  | None => []
+  end = [Some (FStruct [(s "b", FStr (s "c")); (s "text", FSome (FStr (s "d")))]);
+         Some (FStruct [(s "b", FStr (s "c")); (s "text", FSome (FStr (s "d")))])].
+Proof. exact k1_would_hold_with_value. Qed.
+
+Theorem C13_value_accepts_holds : forall vdocs m e,
+  vdocs <> [] -> Forall (Forall wf_vnode) vdocs ->
+  Forall (fun p => elem_names (map erase_v p) = [m]) vdocs ->
+  run_dom (map (map erase_v) vdocs) = Some e ->
+  clash_free_tree e = true -> names_plain e = true ->
+  Forall (Forall data_oriented) vdocs ->
+  attrs_plain e -> attrs_vs_children e -> Forall (Forall adjacent_doc) vdocs ->
+  forall deny vd, In vd vdocs ->
+    exists v, de_doc sx_flavour (render_abs serde_xml_rs_value e) deny vd = Some v
+              /\ incl (flat_map doc_values vd) (leaves v).
+Proof. exact sx_value_accepts_holds. Qed.
+
+(* ---------- examples ---------- *)
+(* vx_doc1 = <?..?><r id="1"> <a>  hello world </a> <b k="v"><c/></b><b k="w"/></r>
+   sx_doc2 = <r id="2"><b k="x"> inner </b><b k="y"/><d><![CDATA[dd]]></d></r> *)
+Example C13_example_hypotheses :
+  sx_docs <> [] /\ Forall (Forall wf_vnode) sx_docs
+  /\ Forall (fun p => elem_names (map erase_v p) = [s "r"]) sx_docs
+  /\ Forall (Forall data_oriented) sx_docs /\ Forall (Forall adjacent_doc) sx_docs
+  /\ exists e, run_dom (map (map erase_v) sx_docs) = Some e
+               /\ clash_free_tree e = true /\ names_plain e = true
+               /\ attrs_plain e /\ namespace_free e /\ attrs_vs_children_names e
+               /\ attrs_vs_children e.
+Proof. exact sx_hypotheses. Qed.
+
+Example C13_example_theorem_applies : forall e, run_dom (map (map erase_v) sx_docs) = Some e ->
+  forall vd, In vd sx_docs ->
+    exists v, de_doc sx_flavour (render_abs serde_xml_rs e) false vd = Some v.
+Proof. exact sx_theorem_applies. Qed.
+
+(* the text ` inner ` of the struct-typed <b> is dropped, everything else is held *)
+Example C13_example_values :
+  match run_dom (map (map erase_v) sx_docs) with
+  | Some e => map (de_doc sx_flavour (render_abs serde_xml_rs e) false) sx_docs
+  | None => []
+  end =
+  [Some (FStruct [(s "id", FStr (s "1")); (s "text", FNone);
+                  (s "a", FSome (FStr (s "hello world")));
+                  (s "b", FSeq [FStruct [(s "k", FStr (s "v")); (s "text", FNone);
+                                         (s "c", FSome (FStruct []))];
+                                FStruct [(s "k", FStr (s "w")); (s "text", FNone); (s "c", FNone)]]);
+                  (s "d", FNone)]);
+   Some (FStruct [(s "id", FStr (s "2")); (s "text", FNone); (s "a", FNone);
+                  (s "b", FSeq [FStruct [(s "k", FStr (s "x")); (s "text", FNone); (s "c", FNone)];
+                                FStruct [(s "k", FStr (s "y")); (s "text", FNone); (s "c", FNone)]]);
+                  (s "d", FSome (FStr (s "dd")))])].
+Proof. exact sx_values. Qed.
+
+Example C13_example_doc_values :
+  map (flat_map doc_values) sx_docs
+  = [[s "1"; s "hello world"; s "v"; s "w"]; [s "2"; s "x"; s "inner"; s "y"; s "dd"]].
+Proof. exact sx_doc_values. Qed.
+
+Example C13_example_value_values :
+  match run_dom (map (map erase_v) sx_docs) with
+  | Some e => map (fun d => option_map leaves (de_doc sx_flavour (render_abs serde_xml_rs_value e) true d)) sx_docs
+  | None => []
+  end = [Some [s "1"; s "hello world"; s "v"; s "w"]; Some [s "2"; s "x"; s "inner"; s "y"; s "dd"]].
+Proof. exact sx_value_values. Qed.
+
+(* sx_interleaved = <r><a/><b/><a/></r> : adjacent false, attrs_vs_children true,
+   rejected by serde-xml-rs, accepted by quick_xml::de *)
+Example C13_needs_adjacent :
+  match run_dom (map (map erase_v) [sx_interleaved]) with
+  | Some e => (forallb adjacent_b sx_interleaved, attrs_vs_children_b e,
+               de_doc sx_flavour (render_abs serde_xml_rs e) false sx_interleaved,
+               option_map leaves (de_doc qx_flavour (render_abs quick_xml_de e) true sx_interleaved))
+  | None => (true, false, Some FNone, None)
+  end = (false, true, None, Some []).
+Proof. exact sx_needs_adjacent. Qed.
+
+(* sx_attr_child = <r a="1"><a>x</a></r> : everything true but attrs_vs_children; rejected *)
+Example C13_needs_attrs_vs_children :
+  match run_dom (map (map erase_v) [sx_attr_child]) with
+  | Some e => (clash_free_tree e, names_plain e, attrs_plain_b e, attrs_vs_children_b e,
+               forallb adjacent_b sx_attr_child,
+               de_doc sx_flavour (render_abs serde_xml_rs e) false sx_attr_child)
+  | None => (false, false, false, true, false, Some FNone)
+  end = (true, true, true, false, true, None).
+Proof. exact sx_needs_attrs_vs_children. Qed.
+
+(* sx_attr_dollar = <r $value="1">t</r> (not XML): everything true but attrs_plain; rejected *)
+Example C13_needs_attrs_plain :
+  match run_dom (map (map erase_v) [sx_attr_dollar]) with
+  | Some e => (clash_free_tree e, names_plain e, attrs_vs_children_b e, namespace_free_b e,
+               forallb adjacent_b sx_attr_dollar, forallb data_oriented_b sx_attr_dollar,
+               attrs_plain_b e,
+               de_doc sx_flavour (render_abs serde_xml_rs e) false sx_attr_dollar)
+  | None => (false, false, false, false, false, false, true, Some FNone)
+  end = (true, true, true, true, true, true, false, None).
+Proof. exact sx_needs_attrs_plain. Qed.
+
+Print Assumptions C13_adjacent_doc_reading.
+Print Assumptions C13_eforallb_reading.
+Print Assumptions C13_hypotheses_reading.
+Print Assumptions C13_namespace_free_local.
+Print Assumptions C13_accepts.
+Print Assumptions C13_attr_values_reading.
+Print Assumptions C13_attrs_held.
+Print Assumptions C13_StringTypedAt_reading.
+Print Assumptions C13_string_text_held.
+Print Assumptions C13_accepts_local.
+Print Assumptions C13_attrs_held_local.
+Print Assumptions C13_string_text_held_local.
+Print Assumptions C13_accepts_tree.
+Print Assumptions C13_keys_ok.
+Print Assumptions C13_text_key_mismatch.
+Print Assumptions C13_de_as_reading.
+Print Assumptions C13_field_no_value.
+Print Assumptions C13_text_field_none.
+Print Assumptions C13_root_text_dropped.
+Print Assumptions C13_known_text_dropped.
+Print Assumptions C13_known_deny_rejected.
+Print Assumptions C13_value_options_reading.
+Print Assumptions C13_would_hold_with_value.
+Print Assumptions C13_value_accepts_holds.
+Print Assumptions C13_example_hypotheses.
+Print Assumptions C13_example_theorem_applies.
+Print Assumptions C13_example_values.
+Print Assumptions C13_example_doc_values.
+Print Assumptions C13_example_value_values.
+Print Assumptions C13_needs_adjacent.
+Print Assumptions C13_needs_attrs_vs_children.
+Print Assumptions C13_needs_attrs_plain.
